@@ -305,6 +305,10 @@ func checkC14(c *Ctx) {
 	c16Caps(c)
 	c14ResultPresence(c)
 	c03QueueAnswered(c) // a transport that queues its answers must not be able to skip one: the others answer every request
+	c02ErrorEnvelope(c) // every client transport hands the client the whole error envelope
+	if x := newC04ctx(c); x != nil {
+		x.issuePoint() // what counts as the session-opening initialize is decided like everywhere else: by id and method
+	}
 }
 
 func fnameOrNil(f *ssa.Function) string {
